@@ -257,6 +257,8 @@ class Check:
 
     def finish(self, search_fn=None):
         """Decide (DESIGN.md §5 step 6), print, write evidence, return the exit code."""
+        if REPLAY_TARGET is not None:
+            return self._finish_replay()
         unexplained = [f for f in self.failures if not f["explained_by"]]
         broken = []
         if not self.proofs_ok:
@@ -291,6 +293,43 @@ class Check:
         d = sum(1 for o in self.obligations if o[1])
         print(f"[{self.pid} {self.tier} seed={self.seed}] theorems {d}/{len(self.obligations)} ok; correspondence " + ", ".join(f"{c['name']}:{c['cases']}/{c['disagreements']}d" for c in self.corr) + f"; failing inputs: {len(self.failures)} ({len(unexplained)} unexplained); {round(time.time() - self.t0, 1)}s")
         return code
+
+
+REPLAY_TARGET = None  # set by replay_by_rerun: the recorded failing input (or "*" for a not-shown replay)
+
+
+def _finish_replay(self):
+    """Replay by re-running the check's own search on the current tree: exit 1 iff the recorded input still fails
+    (for a replay that names a broken theorem / correspondence: iff that still does not check).  Writes nothing."""
+    unexplained = [f for f in self.failures if not f["explained_by"]]
+    if REPLAY_TARGET == "*":
+        bad = (not self.proofs_ok) or (not self.corr_ok) or bool(unexplained)
+        print("proofs ok:", self.proofs_ok, "| correspondence ok:", self.corr_ok, "| unexplained failing inputs:", len(unexplained))
+        for c in self.corr:
+            if c["disagreements"]:
+                print("  correspondence", c["name"], "first disagreement:", json.dumps(c["first"][:1], default=str)[:600])
+        return 1 if bad else 0
+    key = json.dumps(REPLAY_TARGET, sort_keys=True, default=str)
+    hits = [f for f in unexplained if json.dumps(f["input"], sort_keys=True, default=str) == key]
+    if hits:
+        print("the recorded input still fails on this tree:")
+        print(json.dumps({"input": hits[0]["input"], "detail": hits[0]["detail"]}, indent=1, default=str)[:3000])
+        return 1
+    print("the recorded input does not fail on this tree (", len(unexplained), "other unexplained failing inputs in the re-run )")
+    return 0
+
+
+Check._finish_replay = _finish_replay
+
+
+def replay_by_rerun(main_fn, path):
+    """Generic replay: re-run the check (same tier and seed as recorded) and look for the recorded input."""
+    global REPLAY_TARGET
+    d = json.load(open(path, encoding="utf-8"))
+    os.environ["VERIF_SEED"] = str(d.get("seed", 0))
+    REPLAY_TARGET = d["input"] if d.get("kind") == "failing-input" else "*"
+    print(f"replaying {path}: property {d.get('property')}, tier {d.get('tier')}, seed {d.get('seed')}, kind {d.get('kind')}")
+    return main_fn(d.get("tier", "quick"))
 
 
 def run_check(fn):
